@@ -1,5 +1,6 @@
 """C02 - everything emitted is valid JSON-RPC 2.0 and survives the library's own parser."""
 import importlib
+from symcheck.env import Ticks  # noqa
 import inspect
 import pkgutil
 import sys
@@ -201,7 +202,7 @@ def helper_wire(name):
             t, it = list.__getitem__(self, n)
             return (t, build(K_ERROR, 0, dump(ENV.wire[0][1])["id"], code=it.code))
 
-    out = run_stub(L(items), lambda r, w: fn(r, w, timeout=50, **kw))
+    out = run_stub(L(items), lambda r, w: fn(r, w, timeout=Ticks(50), **kw))
     if not out.wire:
         return "nothing-written"
     for _, m in out.wire:
